@@ -353,6 +353,11 @@ impl TryFrom<&Constraint> for PerVisibleRangeConstraints {
                         {
                             v.is_size_constraint = true;
                         }
+                        // The lexer attaches a trailing extension marker to the last element
+                        // of the set, which the fold may have dropped as not PER-visible.
+                        if trailing_extension_marker(s) && v.min.or(v.max).is_some() {
+                            v.extensible = true;
+                        }
                         Ok(v)
                     }
                 }?;
@@ -410,6 +415,9 @@ impl TryFrom<Option<&SubtypeElements>> for PerVisibleRangeConstraints {
                     )
                     .map(|mut c| {
                         c.is_size_constraint = true;
+                        if trailing_extension_marker(s) && c.min.or(c.max).is_some() {
+                            c.extensible = true;
+                        }
                         c
                     })
                 }
@@ -498,6 +506,18 @@ pub fn per_visible_range_constraints(
 /// then the resulting constraint is not PER-visible.
 /// If a constraint has an EXCEPT clause, the EXCEPT and the following value set is completely ignored,
 /// whether the value set following the EXCEPT is PER-visible or not.
+fn trailing_extension_marker(set: &SetOperation) -> bool {
+    match &*set.operant {
+        ElementOrSetOperation::SetOperation(inner) => trailing_extension_marker(inner),
+        ElementOrSetOperation::Element(
+            SubtypeElements::SingleValue { extensible, .. }
+            | SubtypeElements::ValueRange { extensible, .. }
+            | SubtypeElements::ContainedSubtype { extensible, .. },
+        ) => *extensible,
+        _ => false,
+    }
+}
+
 fn fold_constraint_set(
     set: &SetOperation,
     char_set: Option<&BTreeMap<usize, char>>,
